@@ -15,3 +15,6 @@ open GoSQLXModel
 #print axioms Props.C03.expression_round_trip
 #print axioms Props.C03.eof_stops
 #print axioms Props.C03.text_determines_tree
+#print axioms ExprParse.mono
+#print axioms ExprParse.pExpr_stable
+#print axioms Props.C03.expression_round_trip_fuel_free
